@@ -384,6 +384,13 @@ class MemoryModel:
                         base = norm(tr.local(st.lhs.local))
                         if any(x[0] == "call" and x[1] in ("HashMap::get_mut",) for x in walk(base)):
                             out.append((cb, blk.idx, fs[-1], st.line, base))
+                # moving a field of a looked-up entry out / replacing it in place (`mem::take(&mut entry.content)`)
+                t = blk.term
+                if t.kind == "call" and short(t.callee() or "") in ("mem::take", "mem::replace", "mem::swap"):
+                    for a in t.args:
+                        x = norm(tr.operand(a))
+                        if x[0] == "field" and any(y[0] == "call" and y[1] in ("HashMap::get_mut", "HashMap::entry", "HashMap::get") for y in walk(x[1])):
+                            out.append((cb, blk.idx, x[2], t.line, x[1]))
         return out
 
     def handle_sites(self, b, suffixes):
